@@ -214,6 +214,9 @@ class Interp:
                         raise SymRaise("AttributeError", f"can't set {name}")
                     self.call(cv.fset, [obj, value], {})
                     return
+            if name == "__dict__" and isinstance(value, dict):
+                self.heap[obj.id] = value
+                return
             self.heap[obj.id][name] = value
             return
         if isinstance(obj, ClassVal):
@@ -681,7 +684,9 @@ class Interp:
                 for b in stack:
                     b[key] = value       # the store happens on whichever alternative is live
                 return
-            if isinstance(base, (dict, list)):
+            if isinstance(base, dict):
+                base[self.lib.dict_key(self, base, key)] = value
+            elif isinstance(base, list):
                 base[key] = value
             elif isinstance(base, Vec) and isinstance(key, int):
                 base.items[key] = value
